@@ -41,7 +41,7 @@ CLAIMED = {
    ref='DESIGN.md section 6 C11'),
  'C10': dict(
    text='PARTIAL proof + direct decision. Proved: (1) for the lossless bit reader (Model/BitReader.v, the only code that looks at how much fill_buf exposes; tied to lossless.rs by the c01model correspondence): '
-        'for EVERY byte string, EVERY pair of fill_buf schedules and EVERY script of fill / read_bits / consume / peek operations the values delivered, the outcome and the observable final state are equal; both refill paths agree; '
+        'for EVERY byte string, EVERY pair of fill_buf schedules and EVERY script of fill / read_bits / consume / peek operations the values delivered, the outcome and the observable final state are equal; both refill paths agree; over a fill_buf that fails once (Model/BitReaderIO.v, tied by the c10bits correspondence incl. call counts) a fault at call k of the fault-free run ends the run with the I/O error at exactly that operation after a prefix of the fault-free values (BRIO.bit_reader_fault_surfaces); '
         '(2) std::io contract model with explicit delivery schedules (read_exact result and end position independent of the schedule; '
         'UnexpectedEof for every schedule on short data; write_all output independent of how the sink splits writes; on a sink fault the result is an error and the sink holds a prefix). '
         'Decided directly on the implementation every run: 8 schedule classes x corpus, one injected fault at every I/O call index with the result compared to the fault-free baseline, encoder sinks failing at every call / splitting writes.',
